@@ -1,7 +1,6 @@
 package binder
 
 import (
-	"github.com/gofiber/utils/v2"
 	"github.com/valyala/fasthttp"
 )
 
@@ -25,8 +24,9 @@ func (b *CookieBinding) Bind(req *fasthttp.Request, out any) error {
 			return
 		}
 
-		k := utils.UnsafeString(key)
-		v := utils.UnsafeString(val)
+		// copy: bound fields and map entries must not alias the recycled request buffers
+		k := string(key)
+		v := string(val)
 		err = formatBindData(out, data, k, v, b.EnableSplitting, false)
 	})
 
